@@ -137,7 +137,7 @@ type apiOp struct {
 	huntLenAfter    int
 }
 
-const tail = 6600 * time.Millisecond
+const tail = 7800 * time.Millisecond
 
 // scn steps: s<m>:<k|x>  x<m>  c  q<m>:<0|1>  b<m>:<-|a|d>:<l|o>  o<m>  w<ms>
 func runTrace(scn string) (evs []event, frames []frameRec, ops []*apiOp) {
@@ -286,7 +286,7 @@ func runTrace(scn string) (evs []event, frames []frameRec, ops []*apiOp) {
 
 func traceOracle(evs []event, frames []frameRec, ops []*apiOp) (string, string) {
 	const cycle = 6 * time.Second
-	const slack = 600 * time.Millisecond
+	const slack = 1500 * time.Millisecond // generous: scheduling delays on a loaded machine must not raise an alarm
 	hunted := map[int]bool{}
 	for _, o := range ops {
 		switch o.kind {
